@@ -104,3 +104,37 @@ Theorem flame_total_bound_refuted :
   /\ flame_rows 1000 (graph_build 1000 [] [100] overcount_witness) = [([[109]], 1); ([[109]; [102]], 1)]
   /\ time_path [[109]] (ref_calls [100] overcount_witness) = 1200.
 Proof. vm_compute. repeat split; reflexivity. Qed.
+
+(* ---- the automatic sample time ---- *)
+Require Import UV.C15.GraphText.
+Theorem auto_sample_spec : forall total,
+  let s := auto_sample total in
+  In s [1000; 10000; 100000; 1000000; 10000000; 100000000; 1000000000]
+  /\ (total <= s * 1000000 \/ s = 1000000000)
+  /\ (s = 1000 \/ (s / 10) * 1000000 < total).
+Proof.
+  intros total. cbv zeta. unfold auto_sample. cbn [auto_sample_loop].
+  repeat match goal with
+         | |- context [?a * 1000000 <? total] =>
+             let E := fresh "E" in destruct (a * 1000000 <? total) eqn:E;
+             [apply N.ltb_lt in E | apply N.ltb_ge in E]; cbn [andb negb N.eqb Pos.eqb]
+         end;
+  simpl; repeat split; auto 10; try (left; lia); try (right; lia); try lia.
+Qed.
+Example auto_sample_example : auto_sample 2500000000 = 10000 /\ auto_sample 12345 = 1000 /\ auto_sample (10 ^ 17) = 1000000000.
+Proof. vm_compute. repeat split; reflexivity. Qed.
+
+Lemma auto_sample_nonzero : forall total, auto_sample total <> 0.
+Proof.
+  intros total. destruct (auto_sample_spec total) as [H _]. cbv zeta in H.
+  simpl in H. intros E. rewrite E in H. repeat (destruct H as [H|H]; [discriminate|]). exact H.
+Qed.
+(* what `dump --flame-graph` prints for recorded data when no --sample-time is given *)
+Theorem flame_auto_lines : forall total rootname tids s,
+  wf_stream s = true -> NoDup tids -> (forall r, In r s -> In (fst r) tids) ->
+  (forall p, time_path p (ref_calls tids s) < W64) ->
+  forall p c, In (p, c) (flame_rows (auto_sample total) (graph_build (auto_sample total) rootname tids s)) <->
+    (count_path p (ref_entries [] s) <> 0
+     /\ c = (time_path p (ref_calls tids s) - sampled_child_time (auto_sample total) p (ref_calls tids s)) / auto_sample total
+     /\ c <> 0).
+Proof. intros. apply flame_sampled_exact; try assumption. apply auto_sample_nonzero. Qed.
